@@ -31,7 +31,7 @@ RULE = ('one case = initial tree of a sandbox (install directory fresh or popula
         'files, a directory and a link pointing back, outside) + an archive (1..8 members of kinds regular / directory / '
         'symlink / hardlink / fifo; names and link targets relative, ..-laden or absolute; any order; gzip or plain) '
         'built with tarfile and extracted by the real untar_file. Streams: benign trees, benign + one hostile member, '
-        'link-then-file-through-link, hardlink-then-overwrite, links staying inside, back slashes in names and targets (one odd component on POSIX), link duplication, back-link replacement, kind '
+        'link-then-file-through-link, hardlink-then-overwrite, links staying inside, links re-pointed by later members, back slashes in names and targets (one odd component on POSIX), link duplication, back-link replacement, kind '
         'replacement, fully random; thorough adds every archive of one or two members over a small alphabet (6 names x '
         '5 targets x 4 kinds: 72 + 5184 archives). Non-trivial = at least one member was extracted or refused for a reason other than '
         'its mere kind; distinct = distinct (initial tree, member list, compression).')
@@ -59,7 +59,8 @@ PRE = {
                   ['install/k', 'sym', 'pre']],
 }
 OUTSIDE = [['sentinel.txt', 'file', 'precious'], ['outdir', 'dir'], ['outdir/keep.txt', 'file', 'keep'],
-           ['outdir/back', 'sym', '../install/landing'], ['abs', 'dir']]
+           ['outdir/back', 'sym', '../install/landing'], ['abs', 'dir'],
+           ['victim', 'dir'], ['victim/sensors', 'dir'], ['victim/sensors/sensors.txt', 'file', '# kapture format: 1.0']]
 
 
 def _chain():
@@ -254,8 +255,32 @@ def _backslash(rng):
     return ms
 
 
+def _repoint(rng):
+    """links that point inside when they are created and are re-pointed outside by what comes after them"""
+    v = rng.randrange(5)
+    if v == 0:
+        ms = [_sym('b', 'c/d'), _sym('a', 'b/../..'), _sym('k/sensors/sensors.txt', '../../a/victim/sensors/sensors.txt'),
+              _sym('c', '.'), _dir(rng, 'd')]
+    elif v == 1:
+        ms = [_sym('a', 's/s/../..'), _sym('s', '.'), _sym('w', 'a/sentinel.txt')]
+    elif v == 2:
+        ms = [_dir(rng, 'x/y'), _sym('t', 'x/y'), _sym('a', 't/../..'), _sym('t', '.')]
+    elif v == 3:
+        ms = [_sym('a', 'n/../../outdir'), _sym('n', 'sub/deep'), _dir(rng, 'sub/deep'), _reg(rng, 'f.txt')]
+    else:
+        ms = [_sym('q/l', 'm/../../..'), _dir(rng, 'q'), _sym('q/m', '.'), _sym('z', 'q/l/sentinel.txt')]
+    r = rng.random()
+    if r < 0.25:
+        ms = ms[:rng.randint(1, len(ms))]           # a prefix: often still harmless
+    elif r < 0.4:
+        ms.append(_reg(rng, rng.choice(['after.txt', '../late.txt', 'a/x.txt'])))   # then a member, maybe refused
+    return ms
+
+
 def _scenario(rng):
-    r = rng.randrange(25)
+    r = rng.randrange(27)
+    if r >= 25:
+        return 'repoint', _repoint(rng)
     if r >= 23:
         return 'backslash', _backslash(rng)
     if r >= 20:
@@ -369,6 +394,20 @@ def _snapshot(top):
     return snap
 
 
+def _leaving(install):
+    """the symbolic links below install that resolve outside it, as (relative path, text)"""
+    real = os.path.realpath(install)
+    out = set()
+    for d, dirs, files in os.walk(real, followlinks=False):
+        for n in dirs + files:
+            p = os.path.join(d, n)
+            if os.path.islink(p):
+                rp = os.path.realpath(p)
+                if rp != real and not rp.startswith(real + os.sep):
+                    out.add((os.path.relpath(p, real), os.readlink(p)))
+    return out
+
+
 def _build_tree(P, pre):
     groups = {}
     for ent in OUTSIDE + [['install', 'dir']] + PRE[pre]:
@@ -440,6 +479,7 @@ def run_impl(case, ctx):
         archive = os.path.join(os.path.realpath(ctx['tmp']), 'archive.tar' + ('.gz' if case['gz'] else ''))
         _build_archive(archive, case['members'], P, top, case['gz'])
         before = _snapshot(top)
+        leaving_before = _leaving(install)
         lib = []
         with tarfile.open(archive, 'r:*') as t:
             for ti in t:
@@ -458,6 +498,7 @@ def run_impl(case, ctx):
                     raise
                 exc = e
         after = _snapshot(top)
+        new_leaving = sorted(_leaving(install) - leaving_before) if os.path.isdir(install) else []
     finally:
         os.umask(old_umask)
         shutil.rmtree(P, ignore_errors=True)
@@ -486,7 +527,7 @@ def run_impl(case, ctx):
         return {os.path.relpath(k, prel): v for k, v in snap.items() if k.startswith(prel + os.sep)}
     return {'outcome': _classify_exc(exc), 'exc': None if exc is None else f'{type(exc).__name__}: {exc}'.replace(P, '$P').replace(top, '$T')[:300],
             'pre': under_p(before), 'final': under_p(after), 'outside_changed': [c.replace(prel, '$P') for c in changed],
-            'chain_ok': chain_ok, 'lib': lib, 'P': [c for c in P.split('/') if c], 'top': top}
+            'chain_ok': chain_ok, 'lib': lib, 'new_leaving': [list(x) for x in new_leaving], 'P': [c for c in P.split('/') if c], 'top': top}
 
 
 # ---------------------------------------------------------------------------------------- oracle
@@ -532,6 +573,10 @@ def oracle(case, obs):
     """The property, stated directly on the observed behaviour (independent of the Coq model)."""
     if obs['outside_changed'] or not obs['chain_ok']:
         return 'something outside the install directory was created or modified: ' + ','.join(obs['outside_changed'][:3])
+    if obs.get('new_leaving'):
+        # usable by whatever runs next (the caller upgrades the dataset in place right after the extraction)
+        return ('a symbolic link left in the install directory resolves outside it: '
+                + ','.join(f'{p} -> {t}' for p, t in obs['new_leaving'][:2]))
     expect = _benign_expectation(case, obs)
     if expect is not None:
         if obs['outcome'] != 'ok':
@@ -547,7 +592,7 @@ def oracle(case, obs):
 
 # ---------------------------------------------------------------------------------------- Coq encoding
 _OC = {'ok': 'OOk', 'f_outside': '(OFilter FOutside)', 'f_linkoutside': '(OFilter FLinkOutside)',
-       'f_abslink': '(OFilter FAbsLink)', 'f_special': '(OFilter FSpecial)', 'f_other': 'OOther',
+       'f_abslink': '(OFilter FAbsLink)', 'f_special': '(OFilter FSpecial)', 'f_other': '(OFilter FLeaves)',
        'oserr': 'OOs', 'other': 'OOther'}
 _LV = {'ok': 'LAcc', 'f_outside': '(LRej FOutside)', 'f_linkoutside': '(LRej FLinkOutside)',
        'f_abslink': '(LRej FAbsLink)', 'f_special': '(LRej FSpecial)'}
